@@ -92,7 +92,8 @@ def kernel_obs(ctx, aliases=(0,)):
 
 
 def obligations(ctx):
-    return layout_obs(ctx) + kernel_obs(ctx)
+    # pointwise kernels also with the output being one of the operands (the library itself multiplies in place: svp_apply_dft, znx_small_single_product)
+    return layout_obs(ctx) + kernel_obs(ctx, aliases=(0, 1, 2))
 
 
 def check(ctx, only=None, list_only=False):
